@@ -115,6 +115,8 @@ def strategy(tier):
             st.fixed_dictionaries({"k": st.just("no-ciphertext")}),
             st.fixed_dictionaries({"k": st.just("ciphertext-type"), "v": st.one_of(st.none(), junk.filter(lambda j: not isinstance(j, str)))}),
             st.fixed_dictionaries({"k": st.just("bad-b64"), "v": bad_b64}),
+            st.fixed_dictionaries({"k": st.just("b64-damaged"), "n": st.integers(0, 3)}),
+            st.fixed_dictionaries({"k": st.just("b64-damaged"), "n": st.integers(0, 3)}),
             st.fixed_dictionaries({"k": st.just("short"), "n": st.integers(0, 31)}),
             st.fixed_dictionaries({"k": st.just("extend"), "n": st.integers(1, 15)}),
             st.fixed_dictionaries({"k": st.just("chop"), "n": st.integers(1, 15)}),
@@ -334,6 +336,17 @@ def _bad_stored(case, R, d):
         value = {"method": good["method"], "ciphertext": _realize(what["v"])}
     elif k == "bad-b64":
         value = {"method": good["method"], "ciphertext": what["v"]}
+        R.nontrivial = True
+    elif k == "b64-damaged":
+        # the stored text itself is damaged: its padding was stripped, or it was cut short (not a whole number of
+        # base64 quanta any more) - the wrong encoding, to be rejected, never "repaired"
+        text = good["ciphertext"]
+        cut = text.rstrip("=") if what["n"] == 0 else text.rstrip("=")[:-what["n"]]
+        while cut and len(cut) % 4 == 0:
+            cut = cut[:-1]
+        if not cut or cut == text:
+            return
+        value = {"method": good["method"], "ciphertext": cut}
         R.nontrivial = True
     elif k in ("short", "extend", "chop"):
         # length faults only concern block ciphers
